@@ -36,8 +36,8 @@ def scanSteps (rate tsMax : α) : α → Int → List α → List (Vtx α)
   | _, _, [] => []
   | tsPrev, i, d :: ds =>
     let tsStart := step_ts_start tsPrev
-    let tsEnd := step_ts_end tsStart d
-    ⟨step_seq tsEnd tsMax i, tsStart, tsEnd⟩ :: scanSteps rate tsMax (step_ts_next tsEnd tsPrev rate) (i + 1) ds
+    let tsEnd := step_ts_end tsPrev tsStart d
+    ⟨step_seq tsStart tsEnd tsMax i, tsStart, tsEnd⟩ :: scanSteps rate tsMax (step_ts_next tsStart tsEnd tsPrev rate) (i + 1) ds
 
 /-- `ts_start[k]` for an integer index (JAX semantics only matter inside the bounds; `dflt` is returned outside and
 every theorem is stated for all `dflt`). -/
